@@ -86,6 +86,32 @@ def maps(chk):
             pk.width, pk.height, pk.offset, pk.pixels = w, h, (ox, oz), px
             pk.is_tracking_position, pk.is_locked = rng.random() < 0.5, rng.random() < 0.5
             before = list(ms.maps_by_id[mid].pixels)
+            if rng.random() < 0.12:
+                # a rectangle that runs past the last cell of the map: the update is refused (IndexError reaches the caller) at the
+                # first pixel outside; the pixels before it have landed, the map's tracking / locked flags are not touched
+                oz = mh - max(1, h // 2)
+                px = bytes(rng.randrange(256) for _ in range(w * (h + 2)))
+                pk.offset, pk.pixels, pk.height = (ox, oz), px, h + 2
+                first_out = next(i for i in range(len(px) + 1) if i == len(px) or (ox + i % w) + mw * (oz + i // w) >= mw * mh)
+                old_flags = (ms.maps_by_id[mid].is_tracking_position, ms.maps_by_id[mid].is_locked)
+                try:
+                    pk.apply_to_map_set(ms)
+                    outcome = 'returned'
+                except IndexError:
+                    outcome = 'IndexError'
+                except Exception as e:
+                    outcome = exn_name(e)
+                mp = ms.maps_by_id[mid]
+                chk.tally('map:past-the-end')
+                if first_out < len(px) and (outcome != 'IndexError' or (mp.is_tracking_position, mp.is_locked) != old_flags):
+                    chk.violation('map', 'map:past-end:%d' % (hash(repr((mw, mh, w, h, ox, oz))) % 10 ** 8), {'case': {'map_size': [mw, mh], 'width': w, 'height': h + 2, 'offset': [ox, oz]},
+                                                                                                            'observed': {'outcome': outcome, 'flags': [mp.is_tracking_position, mp.is_locked], 'flags_before': list(old_flags)}},
+                                  'map packet %dx%d at offset (%d, %d) on a %dx%d map runs past the end: %s, flags %s -> %s; expected IndexError and untouched flags' % (
+                                      w, h + 2, ox, oz, mw, mh, outcome, list(old_flags), [mp.is_tracking_position, mp.is_locked]))
+                reqs.append(('map_patch', [mw, ox, oz, w, px[:first_out], before]))
+                obs.append(({'map': mid, 'map_size': [mw, mh], 'width': w, 'height': h + 2, 'offset': [ox, oz], 'past_the_end': True}, list(mp.pixels),
+                            (mp.scale,), (pk.scale,)))
+                continue
             pk.apply_to_map_set(ms)
             mp = ms.maps_by_id[mid]
             reqs.append(('map_patch', [mw, ox, oz, w, px, before]))
